@@ -233,8 +233,11 @@ def run(ctx, rep):
     r10_5(ctx, rep, M)
 
     # ---------------- R10.4 -------------------------------------------------------------
-    pops = [n for n in P.calls(r"BTreeMap::<K, V, A>::(pop_last|remove|last_entry)$")
-            if call_is(strip_ids(event_args(g, n)[0]), r"BTreeMap::<K, V>::new$|BTreeMap::<K, V, A>::new$")]
+    is_closed_map = lambda e: call_is(e, r"BTreeMap::<K, V>::new$|BTreeMap::<K, V, A>::new$")
+    pops = [n for n in P.calls(r"BTreeMap::<K, V, A>::(pop_last|remove)$") if is_closed_map(strip_ids(event_args(g, n)[0]))]
+    # `closed.last_entry()...remove()`: the removal is the OccupiedEntry's, the entry comes from the closed map
+    pops += [n for n in P.calls(r"btree_map::OccupiedEntry::<'a, K, V, A>::(remove|remove_entry)$|OccupiedEntry<.*>::(remove|remove_entry)$")
+             if contains(strip_ids(event_args(g, n)[0]), lambda x: call_is(x, r"BTreeMap::<K, V, A>::last_entry$") and is_closed_map(call_arg(x, 0)))]
     rep.floor("R10.4", "reuse of the last recovered chunk (pop_last on the closed map in open)", len(pops), 1)
 
     def step4(ms, pi, qi, learn):
@@ -242,7 +245,7 @@ def run(ctx, rep):
             c = origin_call(o)
             if c is not None and cmatch(g.term(c), r"Option::<T>::(is_some|is_none)$"):
                 a = strip_ids(event_args(g, c)[0])
-                if is_field(a, "truncated") and contains(a, lambda x: call_is(x, r"Iterator>?::last$|BTreeMap::<K, V, A>::(last_key_value|iter)$")):
+                if is_field(a, "truncated") and contains(a, lambda x: call_is(x, r"Iterator>?::last$|BTreeMap::<K, V, A>::(last_key_value|iter|last_entry)$")):
                     nm = cpath(g.term(c)).split("::")[-1]
                     if (nm, v) in (("is_some", "false"), ("is_none", "true")):
                         ms = True
